@@ -1,5 +1,6 @@
 """Schedulers: seeded free runs with eager/lazy polling, insertion of control requests and
 crashes, exhaustive enumeration of completion orders, script replay."""
+import time
 import copy
 import random
 
@@ -42,16 +43,22 @@ def poll_q(run):
     return run.poll()
 
 
-def run_free(run, policy, max_steps=400, hook=None, start=True, max_offers=600):
+def run_free(run, policy, max_steps=400, hook=None, start=True, max_offers=600, max_seconds=None):
     """drive to quiescence. hook(run, phase) may inject requests / crashes; phase in
-    ('before_poll', 'after_poll', 'after_done')"""
+    ('before_poll', 'after_poll', 'after_done').  max_seconds: a wall-clock cap for workloads whose definitions may be
+    arbitrarily expensive (wild edits); like the step cap it cuts the run short and is never a verdict"""
     if start:
         run.request("running")
     need_poll = True
     steps = 0
     resumed = 0
+    t_end = (time.time() + max_seconds) if max_seconds else None
     while steps < max_steps:
         steps += 1
+        if t_end is not None and time.time() > t_end:
+            run.notes["max_steps"] = True
+            run.notes["time_capped"] = True
+            return run
         if len(run.offers) > max_offers:
             # an unbounded definition (the generated classes are bounded; wild edits may not be): cut, not a verdict
             run.notes["max_steps"] = True
